@@ -31,6 +31,7 @@ import (
 	"github.com/projecteru2/core/discovery/helium"
 	"github.com/projecteru2/core/store"
 	"github.com/projecteru2/core/store/etcdv3"
+	"github.com/projecteru2/core/store/etcdv3/embedded"
 	"github.com/projecteru2/core/store/etcdv3/meta"
 	"github.com/projecteru2/core/types"
 	clientv3 "go.etcd.io/etcd/client/v3"
@@ -48,12 +49,13 @@ const (
 // ---- script ----
 
 type action struct {
-	Kind    string `json:"kind"` // set close put del sub read stall cancel unsub cancelunsub wait
-	Addrs   []int  `json:"addrs,omitempty"`
-	Addr    int    `json:"addr,omitempty"`
-	Sub     int    `json:"sub,omitempty"`     // subscriber number; for corpus scripts with Sym: rank in map order
-	Sym     bool   `json:"sym,omitempty"`     // Sub is a rank in haxmap iteration order among the subscribers so far
-	Reading bool   `json:"reading,omitempty"` // sub: initial mode
+	Kind    string   `json:"kind"` // set close put del sub read stall cancel unsub cancelunsub wait
+	Addrs   []int    `json:"addrs,omitempty"`
+	Addr    int      `json:"addr,omitempty"`
+	Sub     int      `json:"sub,omitempty"`     // subscriber number; for corpus scripts with Sym: rank in map order
+	Sym     bool     `json:"sym,omitempty"`     // Sub is a rank in haxmap iteration order among the subscribers so far
+	Reading bool     `json:"reading,omitempty"` // sub: initial mode
+	Ops     []action `json:"ops,omitempty"`     // batch: put/del of distinct addresses in ONE etcd transaction
 }
 
 type script struct {
@@ -213,7 +215,7 @@ func (s *subscriber) take() [][]int {
 
 // ---- running one script ----
 
-func runScript(sc script, mercury *etcdv3.Mercury) (res result) {
+func runScript(sc script, mercury *etcdv3.Mercury, raw *clientv3.Client) (res result) {
 	res.Script = sc
 	defer func() {
 		if e := recover(); e != nil {
@@ -243,6 +245,7 @@ func runScript(sc script, mercury *etcdv3.Mercury) (res result) {
 	}
 
 	unregs := map[int]func(){}
+	plain := map[int]bool{} // addresses put by a batch (no lease)
 	defer func() {
 		for _, u := range unregs {
 			go u()
@@ -260,6 +263,42 @@ func runScript(sc script, mercury *etcdv3.Mercury) (res result) {
 			if u := unregs[a.Addr]; u != nil {
 				delete(unregs, a.Addr)
 				u()
+			}
+		case "batch":
+			// one transaction = one revision = one watch response carrying all the events
+			pfx := mercury.KV.(*prefixKV).p
+			var ops []clientv3.Op
+			for _, o := range a.Ops {
+				key := pfx + "/services/" + addrName(o.Addr)
+				if o.Kind == "put" {
+					if u := unregs[o.Addr]; u != nil {
+						continue // held by a lease of RegisterService: leave it alone (no event either way)
+					}
+					ops = append(ops, clientv3.OpPut(key, ""))
+					addr := o.Addr
+					plain[addr] = true
+				} else {
+					if unregs[o.Addr] != nil && !plain[o.Addr] {
+						// registered through RegisterService: revoke outside the batch is not
+						// the same response; the generator avoids this
+						continue
+					}
+					ops = append(ops, clientv3.OpDelete(key))
+					delete(plain, o.Addr)
+					delete(unregs, o.Addr)
+				}
+			}
+			if len(ops) > 0 {
+				if _, err := raw.Txn(root).Then(ops...).Commit(); err != nil {
+					panic("batch txn: " + err.Error())
+				}
+			}
+			for _, o := range a.Ops {
+				if o.Kind == "put" && plain[o.Addr] {
+					addr := o.Addr
+					key := pfx + "/services/" + addrName(addr)
+					unregs[addr] = func() { _, _ = raw.Delete(context.Background(), key) }
+				}
 			}
 		}
 	}
@@ -380,7 +419,7 @@ func runScript(sc script, mercury *etcdv3.Mercury) (res result) {
 			sendq <- func() { stub.ch <- l }
 		case "close":
 			sendq <- func() { close(stub.ch) }
-		case "put", "del":
+		case "put", "del", "batch":
 			kvop(a)
 		case "sub":
 			ctx, cancel := context.WithCancel(root)
@@ -468,6 +507,16 @@ func coqAction(a action, keys []int, nsubBefore int) string {
 		return fmt.Sprintf("(APut %d)", a.Addr)
 	case "del":
 		return fmt.Sprintf("(ADel %d)", a.Addr)
+	case "batch":
+		out := make([]string, len(a.Ops))
+		for i, o := range a.Ops {
+			if o.Kind == "put" {
+				out[i] = fmt.Sprintf("Put %d", o.Addr)
+			} else {
+				out[i] = fmt.Sprintf("Del %d", o.Addr)
+			}
+		}
+		return "(ABatch [" + strings.Join(out, ";") + "])"
 	case "sub":
 		return fmt.Sprintf("(ASub %d %s)", keys[nsubBefore], vh.Bool(a.Reading))
 	case "read":
@@ -546,7 +595,7 @@ func stallExposed(res result) bool {
 			f[a.Sub].cancel = true
 		}
 		switch a.Kind {
-		case "set", "put", "del", "unsub", "cancelunsub", "wait":
+		case "set", "put", "del", "batch", "unsub", "cancelunsub", "wait":
 			for i, x := range f {
 				if (a.Kind == "cancelunsub" || a.Kind == "unsub") && i == a.Sub {
 					continue
@@ -575,6 +624,7 @@ func on(kind string, i int) action     { return action{Kind: kind, Sub: i} }
 func onRank(kind string, r int) action { return action{Kind: kind, Sub: r, Sym: true} }
 func put(a int) action                 { return action{Kind: "put", Addr: a} }
 func del(a int) action                 { return action{Kind: "del", Addr: a} }
+func batch(ops ...action) action       { return action{Kind: "batch", Ops: ops} }
 
 var wait = A("wait")
 
@@ -605,6 +655,9 @@ func corpusEtcd() []script {
 			Acts: []action{sub(true), wait, put(2), wait, on("cancelunsub", 0), wait}},
 		{Name: "etcd-window-put-del", Etcd: true, Keys0: []int{4}, PreWatch: []action{put(8)}, Between: []action{put(5), del(5), del(4)},
 			Acts: []action{sub(true), wait, put(6), wait, on("cancelunsub", 0), wait}},
+		// several changes in one transaction arrive in one watch response: one list is sent, or none
+		{Name: "etcd-batched-responses", Etcd: true, Acts: []action{sub(true), batch(put(1), put(2), put(3)), wait, batch(del(1), put(4), del(3)),
+			batch(put(4), del(7)), wait, batch(del(2), del(4)), wait, on("cancelunsub", 0), wait}},
 		{Name: "etcd-reregister", Etcd: true, Acts: []action{put(3), sub(true), wait, put(3), del(3), put(3), wait, sub(true), put(4), wait, on("cancelunsub", 0), on("cancelunsub", 1), wait}},
 	}
 }
@@ -628,7 +681,27 @@ func (g gen) script(name string, etcd bool, allowStall bool) script {
 		}
 		sc.Acts = append(sc.Acts, a)
 	}
+	prelude := true
 	change := func() action {
+		if etcd && !prelude && g.rng.Intn(4) == 0 {
+			// a transaction over the plain keys 5..8
+			var ops []action
+			for x := 5; x <= 8; x++ {
+				if g.rng.Intn(2) == 0 {
+					continue
+				}
+				if cur[x] {
+					delete(cur, x)
+					ops = append(ops, del(x))
+				} else {
+					cur[x] = true
+					ops = append(ops, put(x))
+				}
+			}
+			if len(ops) > 0 {
+				return batch(ops...)
+			}
+		}
 		if etcd {
 			x := 1 + g.rng.Intn(4)
 			if cur[x] && g.rng.Intn(3) > 0 {
@@ -661,6 +734,7 @@ func (g gen) script(name string, etcd bool, allowStall bool) script {
 			sc.Between = append(sc.Between, change())
 		}
 	}
+	prelude = false
 	emit(change())
 	for len(sc.Acts) < n {
 		if inSlot >= slotsPerI-1 {
@@ -831,6 +905,9 @@ func TestC27(t *testing.T) {
 	glue := calciumGlue(t)
 	os.Args = args0
 
+	rawCli := embedded.NewCluster(t, "/cw").RandClient() // the (namespaced) client of the one embedded cluster
+	os.Args = args0
+
 	results := make([]result, len(scripts))
 	var wg sync.WaitGroup
 	runWithRetry := func(i int, m *etcdv3.Mercury) {
@@ -840,7 +917,7 @@ func TestC27(t *testing.T) {
 				old := m.KV.(*prefixKV)
 				m.KV = &prefixKV{KV: old.KV, p: fmt.Sprintf("%s-retry%d", old.p, try)}
 			}
-			results[i] = runScript(scripts[i], m)
+			results[i] = runScript(scripts[i], m, rawCli)
 			if !results[i].Late {
 				return
 			}
